@@ -376,6 +376,23 @@ theorem Span.Canon.eq_of_sameCells {a b : Span} (ha : Span.Canon a) (hb : Span.C
     (h : SameCells (Span.unroll a) (Span.unroll b)) : a = b := by
   rw [← ha.rle_trim_unroll, ← hb.rle_trim_unroll, h.trimZ_eq]
 
+/-! ### observers of a tape -/
+
+theorem Tape.marks_toCfg (t : Tape) (q : Nat) : t.marks = (t.toCfg q).marks := by
+  simp only [Tape.marks, Cfg.marks, Tape.toCfg, Span.marks_eq]
+  by_cases h : t.scan = 0 <;> simp [h] <;> omega
+
+theorem Tape.blank_iff {t : Tape} (h : t.Canon) (q : Nat) :
+    t.blank = true ↔ (t.toCfg q).Blank := by
+  simp only [Tape.blank, Cfg.Blank, Tape.toCfg, h.1.allZero_iff, h.2.allZero_iff,
+    Bool.and_eq_true, beq_iff_eq, List.isEmpty_iff, and_assoc]
+
+theorem Tape.atEdge_iff {t : Tape} (h : t.Canon) (d : Bool) :
+    t.atEdge d = true ↔
+      t.scan = 0 ∧ AllZero (if d then Span.unroll t.rspan else Span.unroll t.lspan) := by
+  cases d <;>
+    simp [Tape.atEdge, h.1.allZero_iff, h.2.allZero_iff]
+
 /-! ### sigCompatible -/
 
 theorem Span.sigCompatible_iff (s : Span) (cs : SigSpan) :
